@@ -165,6 +165,20 @@ CLAIMED.update({
              "executor-level statement is proved); interrupts whose upstream-fed input has a default are not generated (DESIGN F-f).",
         technique="Coq proof (interrupt executor / async isolation / nested pause path) + pause-resume history oracle",
     ),
+    "C15": dict(
+        category="proof",
+        text="Theorems on a transition system over job trees (supersteps with barriers, nested runs, unbounded maps, worker pools; permits "
+             "taken only by leaves around their body; any enabled transition may fire): running + free = k in every reachable configuration, "
+             "hence at most k bodies execute; every reachable unfinished configuration with k >= 1 has an enabled transition (no deadlock); "
+             "every transition decreases a measure, so every schedule is finite (no starvation, no fairness assumed); a waiting leaf with no "
+             "free permit and nobody running is stuck (what a container holding a permit would cause). Tied to /repo by an adversarial "
+             "scheduler that holds as many real node bodies open as AsyncRunner allows: peak <= k, peak == min(k, width), termination under a "
+             "watchdog, same results as the unlimited run.",
+        design_ref="DESIGN.md section 5 C15",
+        note="partial: asyncio.Semaphore wake-up order and ContextVar inheritance by tasks are runtime behaviour, exercised by the harness "
+             "and not modelled; the model is purpose-built (not the Engine model) and tied to the code by the measured peaks.",
+        technique="Coq proof (invariant, progress and termination of a permit transition system) + adversarial-scheduler measurement",
+    ),
     "C16": dict(
         category="proof",
         text="Theorems: with entry points only active nodes are ever scheduled (every state); a returned key is a declared output (or a "
